@@ -72,3 +72,11 @@ CASES += [
     dict(id='c14-eq-getlog-compare-form', prop='C14', file=LG, expect=None,
          old="      if (log_name == it.mName)\n         return it.mpLog;", new="      if (it.mName.compare( log_name) == 0)\n         return it.mpLog;"),
 ]
+
+LOGC = 'src/library/log/detail/log.cpp'
+CASES += [
+    dict(id='c14-eq-remove-destination-erase-remove', prop='C14', expect=None,
+         edits=[(LOGC, "   for (auto it = mLoggers.begin(); it != mLoggers.end(); ++it)\n   {\n      if (it->mName == name)\n      {\n         mLoggers.erase( it);\n         break;   // for\n      } // end if\n   } // end for",
+                 "   mLoggers.erase( std::remove_if( mLoggers.begin(), mLoggers.end(),\n      [&name]( const LogDestData& ldd) { return ldd.mName == name; }), mLoggers.end());"),
+                (LOGC, "#include \"celma/log/detail/log.hpp\"", "#include \"celma/log/detail/log.hpp\"\n#include <algorithm>")]),
+]
